@@ -12,28 +12,47 @@ import (
 
 const keyF16 = "usedUserTypes-transitive-allOf-base"
 
-// transitiveBaseNames: names of types that are a base of a base somewhere.
+// transitiveBaseNames: names that may come and go in usedUserTypes lists
+// (known finding F16): every allOf base named anywhere inside a type that is
+// itself used as a base.
 func transitiveBaseNames(doc *vlib.Doc) map[string]bool {
-	bases := map[string][]string{}
-	doc.Flat().Walk(func(d, _ *vlib.Dir) {
-		if d.Kw == "TYPE" && d.Schema != nil && d.Schema.Obj != nil && len(d.Params) > 0 {
-			bases[d.Params[0]] = d.Schema.Obj.AllOf
+	objs := map[string]*vlib.Obj{}
+	isBase := map[string]bool{}
+	var markBases func(o *vlib.Obj)
+	markBases = func(o *vlib.Obj) {
+		for _, b := range o.AllOf {
+			isBase[b] = true
 		}
-	})
-	out := map[string]bool{}
-	var rec func(n string, depth int)
-	rec = func(n string, depth int) {
-		for _, b := range bases[n] {
-			if depth >= 1 {
-				out[b] = true
-			}
-			if depth < 10 {
-				rec(b, depth+1)
+		for _, p := range o.Props {
+			if p.V.Obj != nil {
+				markBases(p.V.Obj)
 			}
 		}
 	}
-	for n := range bases {
-		rec(n, 0)
+	doc.Flat().Walk(func(d, _ *vlib.Dir) {
+		if d.Schema != nil && d.Schema.Obj != nil {
+			if d.Kw == "TYPE" && len(d.Params) > 0 {
+				objs[d.Params[0]] = d.Schema.Obj
+			}
+			markBases(d.Schema.Obj)
+		}
+	})
+	out := map[string]bool{}
+	var inside func(o *vlib.Obj)
+	inside = func(o *vlib.Obj) {
+		for _, b := range o.AllOf {
+			out[b] = true
+		}
+		for _, p := range o.Props {
+			if p.V.Obj != nil {
+				inside(p.V.Obj)
+			}
+		}
+	}
+	for n := range isBase {
+		if o := objs[n]; o != nil {
+			inside(o)
+		}
 	}
 	return out
 }
